@@ -136,7 +136,10 @@ class GOb(Obligation):
             def body():
                 G.PRIM_LOG.clear()
                 G.reset_execution()
-                res = self.call(I)
+                del G.WRITE_LOG[:]
+                # the call works on its own copies of the input tensors (numpy's in-place operators write into them); the spec is evaluated on the
+                # inputs as they were before the call, and a later path does not see what an earlier one wrote
+                res = self.call(_snapshot_inputs(I))
                 prims = list(G.PRIM_LOG)
                 try:
                     pairs = self.post(S, I, res) if self.post else []
@@ -480,6 +483,18 @@ def _sym_equal(got, want, check_dtype=False):
             return True, None  # equal under the path condition (e.g. min(a, r) returned a on the path where r == a)
         return False, f"{got!r} vs expected {want!r}"
     return (got == want, f"{got!r} vs expected {want!r}")
+
+
+def _snapshot_inputs(x):
+    if isinstance(x, G.GTensor):
+        return x.copy()
+    if isinstance(x, dict):
+        return {k: _snapshot_inputs(v) for k, v in x.items()}
+    if isinstance(x, list):
+        return [_snapshot_inputs(v) for v in x]
+    if isinstance(x, tuple):
+        return tuple(_snapshot_inputs(v) for v in x)
+    return x
 
 
 # ------------------------------------------------------------------------------------------------ running
